@@ -188,12 +188,15 @@ func genGuardConsts(s *src, o *out) {
 	o.defZ("guards_hash_step", s.evalInt(s.consts["kPrefixHashStep"], nil, 0))
 
 	// newTransfer: default MaxBufSize and the initial buffer size
-	var dfltBuf, initBuf int64 = -1, -1
+	var dfltBuf, initBuf, dfltTimeout int64 = -1, -1, -1
 	ast.Inspect(s.fn("newTransfer").Body, func(n ast.Node) bool {
 		switch n := n.(type) {
 		case *ast.KeyValueExpr:
 			if id, ok := n.Key.(*ast.Ident); ok && id.Name == "MaxBufSize" {
 				dfltBuf = s.evalInt(n.Value, nil, 0)
+			}
+			if id, ok := n.Key.(*ast.Ident); ok && id.Name == "Timeout" {
+				dfltTimeout = s.evalInt(n.Value, nil, 0)
 			}
 		case *ast.CallExpr:
 			if s.text(n.Fun) == "t.bufferSize.Store" && len(n.Args) == 1 {
@@ -202,11 +205,12 @@ func genGuardConsts(s *src, o *out) {
 		}
 		return true
 	})
-	if dfltBuf < 0 || initBuf < 0 {
+	if dfltBuf < 0 || initBuf < 0 || dfltTimeout < 0 {
 		die("newTransfer: default MaxBufSize / initial bufferSize not found")
 	}
 	o.defZ("guards_default_bufsize", dfltBuf)
 	o.defZ("guards_init_buffer_size", initBuf)
+	o.defZ("guards_default_timeout", dfltTimeout)
 
 	// sendFileData (protocol 1 sender): initial chunk size
 	v1Init := int64(-1)
